@@ -38,6 +38,10 @@ def run(tier, seed):
         recipes.append(dict(r, vector=dict(r["vector"], seq=r["vector"]["seq"][: len(r["vector"]["seq"]) // 2]), repeat=True))
     ac.validate(run, "calls-and-faults", recipes)
     run.extra["fault_points"] = sum(1 for r in recipes if r.get("fault"))
+    # generic history fuzzer: live objects used again and again (wrap, query, rotate by 0, edit in place, assemble)
+    from .. import scenario
+    sc = scenario.run(rng, 20 if q else 200)
+    run.validate("scenario-assemblies", "Trace_Assembly", sc["assembly"], None, sigfn=ac.asm_sig, describe=ac.asm_describe)
     return run.finish("TLC: InputsRestored at every exit of the step machine with a fault injected at every step (exhaustive at the graph "
                       "level), negative model (no restore on failure) refuted; I->S: assemblies with and without citations, each run "
                       "plain, with an exception (RuntimeError / InvalidSequence / KeyError) injected at every call into the supplied "
